@@ -176,7 +176,23 @@ orc_x86_compiler_init (OrcCompiler *c)
           || strcmp (opcode->name, "ldreslinl") == 0
           || strcmp (opcode->name, "ldresnearb") == 0
           || strcmp (opcode->name, "ldresnearl") == 0) {
+        int j, k;
+
         c->vars[insn->src_args[0]].need_offset_reg = TRUE;
+
+        /* The resampling rules advance the array pointer themselves, by a
+         * data dependent amount: no other instruction can address the same
+         * array through it. */
+        for (j = 0; j < c->n_insns; j++) {
+          if (j == i) continue;
+          for (k = 0; k < ORC_STATIC_OPCODE_N_SRC; k++) {
+            if (c->insns[j].opcode->src_size[k] == 0) continue;
+            if (c->insns[j].src_args[k] != insn->src_args[0]) continue;
+            orc_compiler_error (c, "array %s is resampled by %s and read again",
+                c->vars[insn->src_args[0]].name, opcode->name);
+            c->result = ORC_COMPILE_RESULT_UNKNOWN_COMPILE;
+          }
+        }
       }
     }
   }
